@@ -127,3 +127,90 @@ def transform_tree(src, dst, kind):
             t = TRANSFORMS[kind]().visit(ast.parse(open(p).read()))
             ast.fix_missing_locations(t)
             open(os.path.join(dst, os.path.relpath(p, src)), "w").write(ast.unparse(t) + "\n")
+
+
+class _ReturnTemp(ast.NodeTransformer):
+    """`return <expr>` -> `ret_value = <expr>; return ret_value` when <expr> is not already a name / constant"""
+    def _block(self, stmts):
+        out = []
+        for s in stmts:
+            s = self.visit(s)
+            if isinstance(s, ast.Return) and s.value is not None and not isinstance(s.value, (ast.Name, ast.Constant)):
+                out.append(ast.copy_location(ast.Assign(targets=[ast.Name(id="ret_value", ctx=ast.Store())], value=s.value), s))
+                out.append(ast.copy_location(ast.Return(value=ast.Name(id="ret_value", ctx=ast.Load())), s))
+            else:
+                out.append(s)
+        return out
+
+    def generic_visit(self, node):
+        for f in ("body", "orelse", "finalbody"):
+            v = getattr(node, f, None)
+            if isinstance(v, list) and v and isinstance(v[0], ast.stmt):
+                setattr(node, f, self._block(v))
+        if isinstance(node, ast.Try):
+            for h in node.handlers:
+                h.body = self._block(h.body)
+        return node
+
+    def visit_Lambda(self, node):
+        return node
+
+
+class _LenTests(ast.NodeTransformer):
+    """`len(x) != 0` -> `len(x) > 0`, `len(x) == 0` -> `len(x) < 1`, `len(x) > 0` -> `len(x) >= 1`"""
+    def visit_Compare(self, node):
+        self.generic_visit(node)
+        if len(node.ops) == 1 and isinstance(node.left, ast.Call) and isinstance(node.left.func, ast.Name) and node.left.func.id == "len" \
+                and isinstance(node.comparators[0], ast.Constant) and node.comparators[0].value == 0 and not isinstance(node.comparators[0].value, bool):
+            op = node.ops[0]
+            if isinstance(op, ast.NotEq):
+                node.ops = [ast.Gt()]
+            elif isinstance(op, ast.Eq):
+                node.ops, node.comparators = [ast.Lt()], [ast.Constant(1)]
+            elif isinstance(op, ast.Gt):
+                node.ops, node.comparators = [ast.GtE()], [ast.Constant(1)]
+        return node
+
+
+class _NestAnd(ast.NodeTransformer):
+    """`if a and b: X` (no else) -> `if a: if b: X`"""
+    def visit_If(self, node):
+        self.generic_visit(node)
+        if not node.orelse and isinstance(node.test, ast.BoolOp) and isinstance(node.test.op, ast.And):
+            inner = node.body
+            for t in reversed(node.test.values):
+                inner = [ast.copy_location(ast.If(test=t, body=inner, orelse=[]), node)]
+            return inner[0]
+        return node
+
+
+class _ElseAfterReturn(ast.NodeTransformer):
+    """`if c: ...; return/raise/continue/break` followed by REST (same block) -> `if c: ... else: REST`"""
+    def _block(self, stmts):
+        stmts = [self.visit(s) for s in stmts]
+        for i, s in enumerate(stmts[:-1]):
+            if isinstance(s, ast.If) and not s.orelse and isinstance(s.body[-1], (ast.Return, ast.Raise, ast.Continue, ast.Break)):
+                rest = self._block_done(stmts[i + 1:])
+                s.orelse = rest
+                return stmts[:i + 1]
+        return stmts
+
+    def _block_done(self, stmts):
+        for i, s in enumerate(stmts[:-1]):
+            if isinstance(s, ast.If) and not s.orelse and isinstance(s.body[-1], (ast.Return, ast.Raise, ast.Continue, ast.Break)):
+                s.orelse = self._block_done(stmts[i + 1:])
+                return stmts[:i + 1]
+        return stmts
+
+    def generic_visit(self, node):
+        for f in ("body", "orelse", "finalbody"):
+            v = getattr(node, f, None)
+            if isinstance(v, list) and v and isinstance(v[0], ast.stmt):
+                setattr(node, f, self._block(v))
+        if isinstance(node, ast.Try):
+            for h in node.handlers:
+                h.body = self._block(h.body)
+        return node
+
+
+TRANSFORMS.update({"return_temp": _ReturnTemp, "len_tests": _LenTests, "nest_and": _NestAnd, "else_after_return": _ElseAfterReturn})
